@@ -649,7 +649,8 @@ pub fn run(prop: &str, tier: &str, replay: Option<&str>) -> i32 {
 /// (an IP literal is an iPAddress, anything else a dNSName, in order; a non-IA5 text is refused), the certificate
 /// says what that state says, and the returned key pair verifies it. CustomExtension accessors return what went in.
 fn c02_constructors(rep: &mut Report, judge: &Judge) {
-    let alphabet = ["a.example", "*.b.example", "192.0.2.1", "::1", "2001:db8::1", "::ffff:192.0.2.1", "1.2.3", "256.1.1.1", "01.2.3.4", "", "localhost", "[::1]", "\u{e9}.example", "a b"];
+    // (IP literals in every spelling the standard parser takes: starting with a digit, a colon, a letter a-f / A-F; near misses)
+    let alphabet = ["a.example", "*.b.example", "192.0.2.1", "::1", "2001:db8::1", "::ffff:192.0.2.1", "1.2.3", "256.1.1.1", "01.2.3.4", "", "localhost", "[::1]", "\u{e9}.example", "a b", "fe80::1", "fd12:3456::7", "abcd::", "FE80::A", "a::b", "face.b00c", "dead:beef", "1::", "0.0.0.0", "::", "[::1]:443", "]:443", "1.2.3.4:80", "::1%eth0"];
     let mut lists: Vec<Vec<&str>> = vec![vec![]];
     for a in alphabet {
         lists.push(vec![a]);
@@ -966,6 +967,27 @@ fn c04_extras(rep: &mut Report, judge: &Judge, _thorough: bool) {
         });
         rep.add(sec);
     }
+}
+
+/// Raw 32-byte public keys whose SHA-256 starts with 00 / 80 / 7f / ff and the deep classes 00 00 / 80 00 (what an
+/// automatic serial number is cut from): for checks that need these data-dependent keys without the whole class table.
+pub fn serial_edge_keys() -> Vec<Vec<u8>> {
+    let mut want: std::collections::BTreeMap<(u8, u8), Vec<u8>> = Default::default();
+    let mut i: u64 = 0;
+    while want.len() < 12 && i < (1 << 23) {
+        let mut raw = vec![0u8; 32];
+        raw[..8].copy_from_slice(&i.to_be_bytes());
+        let d = ring::digest::digest(&ring::digest::SHA256, &raw);
+        let h = d.as_ref();
+        if [0x00u8, 0x80, 0x7f, 0xff, 0x01, 0x81].contains(&h[0]) {
+            want.entry((h[0], 1)).or_insert_with(|| raw.clone());
+        }
+        if h[0] & 0x7f == 0 && h[1] == 0 {
+            want.entry((h[0], if h[2] & 0x80 != 0 { 3 } else { 2 })).or_insert_with(|| raw.clone());
+        }
+        i += 1;
+    }
+    want.into_values().collect()
 }
 
 /// C05: automatic serial for every class of leading hash bytes.
